@@ -373,8 +373,9 @@ def build_configs(tier, seed):
             heavy = spec in ('ElementTetCCR', 'ElementTetMini', 'ElementTetP2')
             if quick and heavy and sum(perm[:2]) % 3 != 0:
                 continue
+            # bubble / CCR tetrahedra with ALL coordinates symbolic: ~9 min each and one in three without a verdict (measured): one free vertex
             add('tet2/perm=%s/%s' % (''.join(map(str, perm)), spec), mesh='tet2', spec=spec, pt=renumbered('tet2', perm),
-                free=([int(perm[4])] if quick else None), timeout=600 if quick else 3000)
+                free=([int(perm[4])] if (quick or heavy) else None), timeout=600 if quick else 1200)
     # --- two hexahedra: the 24 rotations of the second cell (numeric geometry) ------------------------------------------------------------------------
     rots = hex_rotations()
     for ri, rot in enumerate(rots):
